@@ -120,7 +120,7 @@ pub fn gen_spec(rng: &mut Rng, vars: &[u32], fresh: u32, allow_limit: bool, allo
         s.limit = Some(rng.range(0, 3));
     } else if !allow_limit && rng.chance(1, 6) {
         // inside a sub-select only limits whose effect does not depend on the (unspecified) row order
-        s.limit = Some(if rng.chance(1, 2) { 0 } else { 50 });
+        s.limit = Some(if rng.chance(1, 2) { 0 } else { 100_000 });
     }
     s
 }
@@ -265,7 +265,7 @@ pub fn near_copy(rng: &mut Rng, u: &Universe, p: &Pat) -> Pat {
             }
             let mut sp = spec.clone();
             match rng.below(4) {
-                0 => sp.limit = match sp.limit { None => Some(0), Some(0) => if rng.chance(1, 2) { None } else { Some(50) }, Some(_) => Some(0) },
+                0 => sp.limit = match sp.limit { None => Some(0), Some(0) => if rng.chance(1, 2) { None } else { Some(100_000) }, Some(_) => Some(0) },
                 1 => sp.distinct = !sp.distinct,
                 2 => match &mut sp.proj {
                     Some(items) if items.len() > 1 && sp.group_vars.is_empty() && sp.order.is_empty() => { items.pop(); }
